@@ -600,7 +600,14 @@ func hook(c rescorr.Case, ms *yang.Modules, errs []error, out *rescorr.GoOut) {
 			late++
 		}
 	}
-	out.Extra["n"] = []string{strconv.Itoa(N), strconv.Itoa(nReadOnly), strconv.Itoa(late)}
+	foreignCases := 0 // implied cases of nodes another module grafted into the choice
+	for _, n := range w.nodes {
+		if wr := wrappedBy(n.e); wr != nil && wr.Node != nil && n.e.Parent != nil && n.e.Parent.Node != nil &&
+			yang.RootNode(wr.Node) != yang.RootNode(n.e.Parent.Node) {
+			foreignCases++
+		}
+	}
+	out.Extra["n"] = []string{strconv.Itoa(N), strconv.Itoa(nReadOnly), strconv.Itoa(late), strconv.Itoa(foreignCases)}
 }
 
 // wrappedBy returns the node an implied case wraps (nil when e is not an implied case): FixChoice
@@ -800,7 +807,11 @@ func judge(w worked, res *lib.Result, t *tally, verbose bool) (bad bool) {
 	for _, x := range w.g.Findings {
 		report(lib.Disagreement{Kind: "spec", Go: x, SpecVerdict: "violates", What: "Go-side oracle: " + x})
 	}
-	if n := w.g.Extra["n"]; len(n) == 3 {
+	if n := w.g.Extra["n"]; len(n) == 4 {
+		if l, _ := strconv.Atoi(n[3]); l > 0 {
+			t.kinds["sets-with-implied-cases-of-foreign-grafts"]++
+			t.kinds["implied-cases-of-foreign-grafts(start nodes)"] += int64(l)
+		}
 		v, _ := strconv.Atoi(n[0])
 		t.nodes += int64(v)
 		if l, _ := strconv.Atoi(n[2]); l > 0 {
@@ -965,6 +976,9 @@ func main() {
 			if i%8 == 0 || i%8 == 5 || i%8 == 2 {
 				collidePrefixes(r, set)
 			}
+			if i%8 == 2 || i%8 == 5 || i%8 == 4 {
+				addChoiceGrafts(r, set)
+			}
 			if i%4 == 1 {
 				addLateAugments(r, set)
 			}
@@ -984,7 +998,7 @@ func main() {
 	}
 	res.Evaluations = t.queries
 	res.DistinctNontrivial = t.triples.Len()
-	res.Rule = "hand-written corpus (the Lean example forest, submodules, grouping copies from other modules, implicit cases, absent rpc/action input and output, the documented-limit witnesses D17-L1, the rejected augment into an rpc node) + seeded grammar-directed module sets (harness/gen; 3/4 without deliberate faults; 3/8 with prefixes re-assigned so that import prefixes and own prefixes collide with module names (name of another import before or after it, own module name, mutual) and shuffled import order; 1/4 with added late augments: target through or at the implied case of a shorthand choice member, body with shorthand choice members, written in the owning module, a submodule or an importing module); per error-free set all (start, target) pairs of nodes of all module and submodule trees up to 40 nodes (sampled beyond) x absolute path under every prefix the start's context module binds to the target's module (3 spellings) and relative path, + one-corrupted-step paths (unknown name, empty step, bogus below rpc, step below a leaf, `..` above the root, unbound prefix, an imported module's name used as prefix, and every name of a deeper descendant used as a direct step, absolute and relative), + creation of absent rpc inputs/outputs; evaluations = Find calls compared with the model; distinct_nontrivial = distinct (set, start, target) triples looked up with a path of at least 2 steps"
+	res.Rule = "hand-written corpus (the Lean example forest, submodules, grouping copies from other modules, implicit cases, absent rpc/action input and output, the documented-limit witnesses D17-L1, the rejected augment into an rpc node) + seeded grammar-directed module sets (harness/gen; 3/4 without deliberate faults; 3/8 with prefixes re-assigned so that import prefixes and own prefixes collide with module names (name of another import before or after it, own module name, mutual) and shuffled import order; 3/8 with bare nodes grafted by importing modules directly into foreign choices (their implied cases are start nodes whose prefix context is the augmenting module); 1/4 with added late augments: target through or at the implied case of a shorthand choice member, body with shorthand choice members, written in the owning module, a submodule or an importing module); per error-free set all (start, target) pairs of nodes of all module and submodule trees up to 40 nodes (sampled beyond) x absolute path under every prefix the start's context module binds to the target's module (3 spellings) and relative path, + one-corrupted-step paths (unknown name, empty step, bogus below rpc, step below a leaf, `..` above the root, unbound prefix, an imported module's name used as prefix, and every name of a deeper descendant used as a direct step, absolute and relative), + creation of absent rpc inputs/outputs; evaluations = Find calls compared with the model; distinct_nontrivial = distinct (set, start, target) triples looked up with a path of at least 2 steps"
 	res.Distribution["sets_compared"] = t.sets
 	res.Distribution["sets_without_trees(errors/parse)"] = t.noTrees
 	res.Distribution["outside_model"] = t.outside
